@@ -137,8 +137,12 @@ theorem elemExpr_names (e : UnitElem) : (elemExpr e).names = [e.units] := by
   obtain ⟨u, pf, ex, mu, off⟩ := e
   cases pf <;> cases ex <;> cases mu <;> rfl
 
-theorem addUnit_eq_with (reg : Registry) (st : Store) (name : String) (elems : List UnitElem) :
-    addUnit reg st name elems = addUnitWith (defMeaning st.id elems) reg st name := rfl
+/-- the hand model `Units.addUnit` IS the offset test of the parser followed by `Units.addUnitWith`, the function the
+    leaf `add_unit` of this package is bound to -/
+theorem addUnit_eq_with (reg : Registry) (st : Store) (name : String) (elems : List UnitElem)
+    (h : elems.any elemOffsetBad = false) :
+    addUnit reg st name elems = addUnitWith (refsKnown reg st.id elems) (defMeaning st.id elems) reg st name :=
+  addUnit_noOffset h
 
 /-- the `add_now` branch: `_make_pint_unit_definition`, `is_defined`, the `ValueError`, `add_unit` = `Units.addNow` -/
 theorem addNow_tie (reg : Registry) (st : Store) (d : UDef) :
@@ -148,21 +152,38 @@ theorem addNow_tie (reg : Registry) (st : Store) (d : UDef) :
   rw [makeDef_tie]
   unfold addNow
   have h5 : ((d.elems.map elemExpr).all fun e => e.names.all fun n => allKnown reg (nameContainer (mangle st.id n))) =
-      refsResolve reg st d := by
-    simp [refsResolve, List.all_map, Function.comp_def, elemExpr_names]
+      refsKnown reg st.id d.elems := by
+    simp [refsKnown, List.all_map, Function.comp_def, elemExpr_names]
   by_cases h1 : d.elems.any elemOffsetBad = true
   · simp [h1, bind, Except.bind, errClass, addErrClass]
-  simp only [h1, Bool.false_eq_true, if_false, bind, Except.bind, isDefined, Store.isDefined, addUnitLeaf, h5]
-  by_cases h2 : d.name ∈ st.known
+  have h1' : d.elems.any elemOffsetBad = false := by simpa using h1
+  simp only [h1, Bool.false_eq_true, if_false, bind, Except.bind, isDefined, addUnitLeaf, h5]
+  by_cases h2 : st.isDefined d.name = true
   · simp [h2, throw, throwThe, MonadExceptOf.throw, errClass, addErrClass]
+  · rw [denAll_map _ _ h1', addUnit_eq_with _ _ _ _ h1']
+    simp [h2, pure, Except.pure]
+
+/-- `is_defined(name)` is `name in _known_units`, built-ins included (the model's `Store.isDefined`, tied by
+    `PUnits.isDefined_tie`). Were it read as "a name THIS store added" (an earlier version of this view did), nothing
+    observable would change for `_add_units`: a definition named like a built-in would fall through to `add_unit`,
+    whose first test raises the same class (`ValueError('Cannot redefine CellML unit')` instead of
+    `ValueError('Duplicate unit definition')`). The two formulations are equal on all inputs, up to the message: -/
+theorem addNow_known_only (reg : Registry) (st : Store) (d : UDef) :
+    errClass addErrClass (addNow reg st d) =
+      errClass addErrClass (if d.elems.any elemOffsetBad then .error (.valueError "offset")
+        else if st.known.contains d.name then .error (.valueError "duplicate")
+        else addUnit reg st d.name d.elems) := by
+  unfold addNow Store.isDefined
+  by_cases h1 : d.elems.any elemOffsetBad = true
+  · simp [h1]
+  have h1' : d.elems.any elemOffsetBad = false := by simpa using h1
+  by_cases h2 : d.name ∈ st.known
+  · simp [h1, h2, errClass, addErrClass]
   by_cases h3 : d.name ∈ cellmlUnits
-  · simp [h2, h3, errClass, addErrClass, pure, Except.pure]
-  by_cases h4 : d.name ∈ unsupportedUnits
-  · simp [h2, h3, h4, errClass, addErrClass, pure, Except.pure]
-  by_cases h6 : refsResolve reg st d = true
-  · rw [denAll_map _ _ (by simpa using h1), ← addUnit_eq_with]
-    simp [h2, h3, h4, h6, pure, Except.pure]
-  · simp [h2, h3, h4, h6, errClass, addErrClass, pure, Except.pure]
+  · rw [addUnit_noOffset h1']
+    unfold addUnitWith
+    simp [h1, h2, h3, errClass, addErrClass]
+  · simp [h1, h2, h3]
 
 /-- THE BODY of the `while definitions_to_add:` loop of `_add_units`, for every deque, counter and unit store, with
     `units_found` in step with the store: one iteration of the model loop (`Units.ready`, `Units.addNow`, the re-queue
